@@ -7,6 +7,12 @@
 (* without skip-schema-validation: error or not, the charts the error names, *)
 (* the writes in the request log and the storage call log, whether the       *)
 (* templates were rendered) and judges them with the predicates of C14.      *)
+(* For a seeded share of the cases the same operations were also run through *)
+(* the helm command line (pkg/cmd: cli-install, cli-dryrun, cli-template,    *)
+(* cli-upgrade, cli-upinstall-empty, cli-upinstall-uninstalled, cli-lint;    *)
+(* plain, with --skip-schema-validation, and with other flags that must not  *)
+(* switch the gate off).  op.base is the action an operation dispatches to   *)
+(* (Schema!Dispatch); only op.skip may change what is expected.              *)
 (* The schemas are evaluated HERE (Schema!SchemaValid) on the observed       *)
 (* final values, so the verdict does not depend on the coalescing model.     *)
 (*                                                                           *)
@@ -58,7 +64,7 @@ OpChecks(o, k) ==
     [n |-> "C14_Names", kind |-> "prop", v |-> (rej /\ op.schemaErr) => Rng(op.named) = {S!NameOf(P) : P \in Inv}, kf |-> ""],
     \* ... and nothing is sent to the cluster or stored
     [n |-> "C14_NoWrites", kind |-> "prop", v |-> rej => (op.writes = 0 /\ op.storeWrites = 0),
-     kf |-> IF op.mode = "install" /\ crds /\ op.crdWrites > 0 /\ op.writes = op.crdWrites /\ op.storeWrites = 0
+     kf |-> IF op.base = "install" /\ crds /\ op.crdWrites > 0 /\ op.writes = op.crdWrites /\ op.storeWrites = 0
             THEN "KF-L19-crds-installed-before-schema-gate" ELSE ""],
     \* ... and nothing was rendered
     [n |-> "C14_NotRendered", kind |-> "prop", v |-> rej => op.renders = 0, kf |-> ""],
@@ -66,14 +72,16 @@ OpChecks(o, k) ==
     [n |-> "C14_Accepts", kind |-> "prop", v |-> Inv = {} => ~op.schemaErr,
      \* known: helm lint's values.yaml rule validates the root schema against the root chart's own values file
      \* merged with the user values only (no subchart defaults, no globals): it can reject valid final values
-     kf |-> IF op.mode = "lint" /\ Rng(op.named) = {} /\ S!SchemaOf(c, <<>>) # <<>>
+     kf |-> IF op.base = "lint" /\ Rng(op.named) = {} /\ S!SchemaOf(c, <<>>) # <<>>
                /\ ~S!SchemaValid(S!SchemaOf(c, <<>>), S!Merge(S!UserVals(c), S!Defaults(c, S!RootChart)))
             THEN "KF-C14-lint-values-rule-ignores-subchart-defaults" ELSE ""],
     \* the explicit option skips the gate of install / upgrade / template
-    [n |-> "C14_SkipOption", kind |-> "prop", v |-> (op.skip /\ op.mode # "lint") => ~op.schemaErr, kf |-> ""],
+    [n |-> "C14_SkipOption", kind |-> "prop", v |-> (op.skip /\ op.base # "lint") => ~op.schemaErr, kf |-> ""],
+    \* machinery: the harness labelled the operation with the action the specification says it dispatches to
+    [n |-> "KnownOp", kind |-> "mach", v |-> op.mode \in S!AllModes /\ op.base = S!Dispatch(op.mode), kf |-> ""],
     \* machinery: operations that the gate lets pass succeed, and a render is visible in the request log
-    [n |-> "OpRuns", kind |-> "mach", v |-> (Inv = {} \/ (op.skip /\ op.mode # "lint")) => (op.ok \/ op.schemaErr), kf |-> ""],
-    [n |-> "ProbeLive", kind |-> "mach", v |-> (op.ok /\ op.mode \in RealModes) => op.renders >= 1, kf |-> ""] >>
+    [n |-> "OpRuns", kind |-> "mach", v |-> (Inv = {} \/ (op.skip /\ op.base # "lint")) => (op.ok \/ op.schemaErr), kf |-> ""],
+    [n |-> "ProbeLive", kind |-> "mach", v |-> (op.ok /\ op.base \in RealModes) => op.renders >= 1, kf |-> ""] >>
 
 Tag(ch) == IF ch.kind = "mach" THEN "OBSMACH" ELSE IF ch.kf # "" THEN "OBSKNOWN" ELSE "OBSVIOL"
 
